@@ -46,7 +46,7 @@ def gen_logic(rng):
         elif kind == 'gen_ok':
             n = rng.choice([5, 20]); ops.append([0, 'sendgen', None, n, hx(bytes(range(n + 3))), None]); reqs.append(('gen_ok', n))
         else:
-            n = rng.choice([5, 20, 40]); ops.append([0, 'sendgen', None, n, hx(bytes(range(max(0, n - rng.randint(1, 4))))), None]); reqs.append(('gen_short', n))
+            n = rng.choice([5, 20, 40]); ops.append([0, 'sendgen', None, n, hx(bytes(range(min(n - 1, rng.choice([max(0, n - rng.randint(1, 4)), rng.randint(0, n - 1), rng.randint(0, 5), 0]))))), None]); reqs.append(('gen_short', n))
     body = []
     for step in range(rng.randint(4, 14)):
         body.append([0, 'proc', 1, 1])
